@@ -400,7 +400,7 @@ func stringConsts(fd *ast.FuncDecl, info *types.Info) []string {
 
 // EnumTables (R1.3): parameter-type spellings of the lexer and the enum of the API agree in both
 // directions; the printer's operator spellings are the lexer's literals.
-func EnumTables(p *load.Prog, r *oblig.Report, rule string, lg *g4.Grammar) {
+func EnumTables(p *load.Prog, r *oblig.Report, rule string, lg *g4.Grammar, backward bool) {
 	api := apiTypes(p)
 	if api == nil || lg == nil {
 		r.Unknown(rule, "anchor:tables", "-", "api package or lexer grammar missing")
@@ -509,7 +509,7 @@ func EnumTables(p *load.Prog, r *oblig.Report, rule string, lg *g4.Grammar) {
 	}
 	sort.Strings(names)
 	for _, n := range names {
-		if strings.HasSuffix(n, "UNSPECIFIED") {
+		if strings.HasSuffix(n, "UNSPECIFIED") || !backward {
 			continue
 		}
 		sp := strings.ToLower(strings.ReplaceAll(n, strip, ""))
